@@ -57,6 +57,7 @@ pub fn run(path: &str) -> ! {
       "c01" | "c13" | "c09" | "c10" | "c08" | "c14" | "c15" => crate::engines::c01::replay_case(&case),
       "c06" => crate::engines::c06::replay_case(&case),
       "dmn" => replay_dmn(&case),
+      "c20" => crate::engines::c20::replay_case(&case),
       "c18" => crate::engines::c18::replay_case(&case),
       "c17" => crate::engines::c17::replay_case(&case),
       "c19" => crate::engines::c19::replay_case(&case),
